@@ -83,6 +83,10 @@ def gen_layout_desc(rng, collide=False):
         ids = rng.sample(range(0, 3 * nf + 1), nf)
         if rng.random() < 0.4:
             ids.sort()
+        if nf >= 2 and rng.random() < 0.12:
+            # nothing forbids two fields with one id (a copy-and-paste slip): both are laid out, in declaration order
+            a, b = rng.sample(range(nf), 2)
+            ids[a] = ids[b]
         prev = [x[0] for x in d.structs]
         fields = []
         for j in range(nf):
